@@ -11,6 +11,8 @@ import (
 	"fmt"
 	"io"
 	"log"
+	"net/http"
+	"net/http/httptest"
 	"runtime"
 	"sort"
 	"strings"
@@ -306,6 +308,159 @@ func runCase(c Case, o *vh.Obs) *vh.Failure {
 	return nil
 }
 
+// ---------------------------------------------------------------- the same through the edit server's HTTP handlers
+
+var (
+	httpOnce    sync.Once
+	httpHandler http.Handler
+	httpPids    []string
+	httpErr     *vh.Failure
+)
+
+func httpSetup() {
+	app := &generator.App{Name: "c13"}
+	inst := app.VerifGraph()
+	_ = inst
+	// same graph as build(), but on the app whose handler we serve
+	mk := func(v any) string {
+		_, id, err := inst.CreateNode(refutil.GetTypeWithPackage(v))
+		if err != nil {
+			panic(err)
+		}
+		return id
+	}
+	pids := make([]string, 4)
+	for k := range pids {
+		pids[k] = mk(new(parameter.String))
+		inst.UpdateParameter(pids[k], []byte(`"i"`))
+	}
+	c1, c2, c3, c4, c5 := mk(new(CatNode)), mk(new(CatNode)), mk(new(CatNode)), mk(new(CatNode)), mk(new(CatNode))
+	var textType string
+	for _, ty := range inst.Schema().Types {
+		if strings.Contains(ty.Type, "TextNodeData") {
+			textType = ty.Type
+		}
+	}
+	_, t1, _ := inst.CreateNode(textType)
+	_, t2, _ := inst.CreateNode(textType)
+	for _, c := range [][4]string{{pids[0], c1, "A"}, {pids[1], c1, "B"}, {pids[1], c2, "A"}, {pids[2], c2, "B"}, {c1, c3, "A"}, {c2, c3, "B"},
+		{pids[2], c4, "A"}, {pids[3], c4, "B"}, {c4, c5, "A"}, {c1, c5, "B"}, {c3, t1, "In"}, {c5, t2, "In"}} {
+		inst.ConnectNodes(c[0], "Out", c[1], c[2])
+	}
+	inst.SetNodeAsProducer(t1, "a.txt")
+	inst.SetNodeAsProducer(t2, "b.txt")
+	h, err := app.VerifServerHandler(fmt.Sprintf("autosave_%d.json", vh.Shard))
+	if err != nil {
+		httpErr = vh.Failf("harness/http-handler", "cannot build the server handler: %v", err)
+		return
+	}
+	httpHandler, httpPids = h, pids
+}
+
+func runHTTP(c Case, o *vh.Obs) *vh.Failure {
+	if len(c.Clients) < 2 {
+		return nil
+	}
+	httpOnce.Do(httpSetup)
+	if httpErr != nil {
+		return httpErr
+	}
+	procs := c.Procs
+	if procs < 2 {
+		procs = 2
+	}
+	old := runtime.GOMAXPROCS(procs)
+	defer runtime.GOMAXPROCS(old)
+	do := func(method, url string, body []byte) (int, string) {
+		rec := httptest.NewRecorder()
+		req := httptest.NewRequest(method, url, bytes.NewReader(body))
+		httpHandler.ServeHTTP(rec, req)
+		return rec.Code, rec.Body.String()
+	}
+	// the server is shared by the cases of this process: the model starts from the current values
+	var init [4]string
+	for k, id := range httpPids {
+		_, body := do("GET", "/parameter/value/"+id, nil)
+		init[k] = strings.Trim(body, `"`)
+	}
+	run := atomic.AddInt64(&caseCounter, 1)
+	var clock int64
+	var mu sync.Mutex
+	var hist []porcupine.Operation
+	var problems []string
+	var wg sync.WaitGroup
+	start := make(chan struct{})
+	names := []string{"a.txt", "b.txt"}
+	for ci, script := range c.Clients {
+		wg.Add(1)
+		go func(ci int, script []LOp) {
+			defer wg.Done()
+			<-start
+			for k, op := range script {
+				for y := 0; y < op.Yield; y++ {
+					runtime.Gosched()
+				}
+				in := linIn{kind: op.Kind, param: op.Param % 4}
+				if op.Kind == 0 {
+					in.val = fmt.Sprintf("h%dc%dk%d", run, ci, k)
+				}
+				var out string
+				var code int
+				var crashed any
+				call := atomic.AddInt64(&clock, 1)
+				func() {
+					defer func() { crashed = recover() }()
+					switch in.kind {
+					case 0:
+						code, _ = do("POST", "/parameter/value/"+httpPids[in.param], []byte(`"`+in.val+`"`))
+					case 1:
+						var body string
+						code, body = do("GET", "/parameter/value/"+httpPids[in.param], nil)
+						out = strings.Trim(body, `"`)
+					default:
+						code, out = do("GET", "/producer/value/"+names[in.param%2], nil)
+					}
+				}()
+				ret := atomic.AddInt64(&clock, 1)
+				mu.Lock()
+				if crashed != nil || code != 200 {
+					problems = append(problems, fmt.Sprintf("client %d op %d (%s): status %d panic %v", ci, k, model.DescribeOperation(in, out), code, crashed))
+				}
+				hist = append(hist, porcupine.Operation{ClientId: ci, Input: in, Call: call, Output: out, Return: ret})
+				mu.Unlock()
+			}
+		}(ci, script)
+	}
+	close(start)
+	wg.Wait()
+	describe := func() string {
+		sort.Slice(hist, func(i, j int) bool { return hist[i].Call < hist[j].Call })
+		var sb strings.Builder
+		fmt.Fprintf(&sb, "  initial values %v\n", init)
+		for _, h := range hist {
+			fmt.Fprintf(&sb, "  [%3d,%3d] client %d: %s\n", h.Call, h.Return, h.ClientId, model.DescribeOperation(h.Input, h.Output))
+		}
+		return sb.String()
+	}
+	if len(problems) > 0 {
+		sort.Strings(problems)
+		return vh.Failf("http/crash-or-error", "a request failed during a concurrent history: %s\nhistory:\n%s", problems[0], describe())
+	}
+	if r := vh.RaceReport(); r != "" {
+		return vh.RaceFailure(r)
+	}
+	o.NonTrivial()
+	o.Class(fmt.Sprintf("http/clients/%d", len(c.Clients)))
+	o.Count("http-operations", len(hist))
+	m := model
+	m.Init = func() interface{} { return init }
+	if !porcupine.CheckOperations(m, hist) {
+		return vh.Failf("http/not-linearizable", "no sequential order consistent with real time explains this history of HTTP requests:\n%s", describe())
+	}
+	return nil
+}
+
 func TestC13(t *testing.T) {
 	vh.Drive(t, vh.Spec[Case]{Name: "histories", Quick: 24000, Thorough: 800000, Gen: genCase, Run: runCase, Repeat: 50})
+	vh.Drive(t, vh.Spec[Case]{Name: "http-histories", Quick: 6000, Thorough: 200000, Gen: genCase, Run: runHTTP, Repeat: 50})
 }
